@@ -5,7 +5,7 @@
         -> ok <realmhex> <servicehex> <scopehex> | panic
     plan <nparts> <min> <max> <total>
         -> <n> off/size ...
-    pull cfg <nparts> <min> <max> <retries> <fixed> <noprune>
+    pull cfg <nparts> <min> <max> <retries> <variant bit mask> <noprune>
          univ <n> {dig}  blobs <n> {dig content}  partials <n> {dig <data|none> <np> {off size done}}
          manifests <n> {name <corrupt | m MANIFEST>}  name <name>  realm <hex>
          reg MANIFEST content <n> {dig content}  attempts <k> {ATTEMPT}
@@ -271,7 +271,11 @@ def pPull : TP String := do
   let rt ← nat
   let fx ← nat
   let npn ← nat
-  let cfg : Cfg := { nparts := np, minSize := mn, maxSize := mx, retries := rt, fixedChallenge := fx != 0, noPrune := npn != 0 }
+  -- variant bit mask: 1 = getValue bounds check, 2 = "" digest rejected, 4 = skipVerify keeps the first
+  -- answer, 8 = fresh layers verified right after their download
+  let cfg : Cfg := { nparts := np, minSize := mn, maxSize := mx, retries := rt, noPrune := npn != 0,
+                     fixedChallenge := fx % 2 == 1, fixedEmpty := fx / 2 % 2 == 1,
+                     fixedDup := fx / 4 % 2 == 1, verifyEarly := fx / 8 % 2 == 1 }
   expect "univ"
   let univ ← listOf hex
   expect "blobs"
